@@ -447,7 +447,7 @@ def gate_and_minimise(binary, v, prop, replay_dir, budget_s=60, known_args=()):
     if o3[4] is not None:
         mv.at, mv.op_kind, mv.msg = o3[1], o3[2], o3[4].msg
     os.makedirs(replay_dir, exist_ok=True)
-    path = os.path.join(replay_dir, "%s-%s-%d.replay" % (prop, v.universe, v.seed))
+    path = os.path.join(replay_dir, "%s-%s-%s-%d.replay" % (prop, v.oracle.replace(".", "_"), v.universe, v.seed))
     write_replay(path, mv, prop, note=mv.msg)
     return path, True, "minimised %d -> %d ops in %d re-runs" % (len(v.ops), len(mv.ops), tries)
 
